@@ -390,6 +390,55 @@ def run_routes(case):
   return routes_agree(case[0], f, spec, canon)
 
 
+# ---------------------------------------------------------------- long inputs
+def lcg(n, seed=1, mod=11):
+  out, v = [], seed
+  for _ in range(n):
+    v = (v * 1103515245 + 12345) % (2 ** 31)
+    out.append(v % mod - mod // 2)
+  return out
+
+
+LONG_SHAPES = [({0: 1, 1: -1}, {0: 1}), ({0: 1}, {0: 1, 1: F(-1, 2)}), ({0: 2, 3: 1}, {0: 2, 2: 1}),
+               ({0: 1, 25: -1}, {0: 1}), ({0: 1}, {0: 1, 17: F(1, 2)}), ({5: 1, 6: 1}, {0: -1, 1: F(1, 4), 2: F(1, 8)})]
+
+
+def gen_long(run):
+  for i in range(len(LONG_SHAPES)):
+    for L in (run.pick(300, 1500), 64, 65, 128, 129):
+      for xk in ("list", "generator", "stream"):
+        yield (i, L, xk)
+
+
+def run_long(case):
+  """Hundreds of samples (and lengths around powers of two): anything that works by batches, grows a
+  buffer or switches algorithm with the length must still give the recurrence."""
+  i, L, xk = case
+  b, a = LONG_SHAPES[i]
+  x = [F(v) for v in lcg(L, seed=i + 1)]
+  y = []
+  for n in range(L):
+    acc = F(0)
+    for k, c in b.items():
+      if n - k >= 0: acc += c * x[n - k]
+    for k, c in a.items():
+      if k >= 1 and n - k >= 0: acc -= c * y[n - k]
+    y.append(acc / a[0])
+  try:
+    filt = ZFilter({k: (c if F(c).denominator != 1 else int(c)) for k, c in b.items()},
+                   {k: (c if F(c).denominator != 1 else int(c)) for k, c in a.items()})
+    got = list(filt(as_input(xk, [Q(v) for v in x]), zero=Q(0)))
+  except Exception as exc:
+    return bad("filter:exception:" + type(exc).__name__, "long run raised", None, str(exc)[:200], True)
+  if len(got) != L:
+    return bad("filter:length", "one output per input (long input)", L, len(got), True)
+  for n, (g, e) in enumerate(zip(got, y)):
+    if not (Q(g).f == e):
+      return bad("filter:value-long", "output differs from the difference equation on a long input",
+                 {"n": n, "y": str(e)}, str(Q(g).f), True)
+  return R(None, True, (i, L > 200))
+
+
 KINDS = OrderedDict([
   ("full", Kind(gen_full, run_filter, chunk=400,
                 rule="all coefficient vectors up to the length bound; symbolic input, zero and memory")),
@@ -401,4 +450,5 @@ KINDS = OrderedDict([
                      rule="filters with a negative delay (direct or by normalisation) x input lengths")),
   ("call-routes", Kind(gen_routes, run_routes, chunk=1,
                        rule="each function with every documented parameter set: all positional / all keyword / every split must agree")),
+  ("long", Kind(gen_long, run_long, chunk=2, rule="filter shapes (incl. delays 17 and 25) x input lengths 64, 65, 128, 129, 300 (1500) x input kind, exact")),
 ])
